@@ -32,7 +32,9 @@ namespace osmium { namespace detail {
 #include <osmium/io/writer.hpp>
 #include <osmium/thread/pool.hpp>
 
+#include <dirent.h>
 #include <sys/stat.h>
+#include <sys/wait.h>
 #include <unistd.h>
 
 #include <chrono>
@@ -190,7 +192,13 @@ int main(int argc, char** argv) {
         [](const char*, size_t) { return nullptr; });
     mkdir("/verif/build", 0777);
     mkdir("/verif/build/C08-data", 0777);
-    g_dir = "/verif/build/C08-data";
+    g_dir = "/verif/build/C08-data/s" + std::to_string(getpid());      // scratch directory of this run, removed at the end
+    mkdir(g_dir.c_str(), 0777);
+    struct Cleanup { ~Cleanup() {
+        if (DIR* d = opendir(g_dir.c_str())) { while (dirent* e = readdir(d)) if (e->d_name[0] != '.') unlink((g_dir + "/" + e->d_name).c_str()); closedir(d); }
+        rmdir(g_dir.c_str());
+    } };
+    Cleanup cleanup;      // runs in the parent only (workers and the replay child leave through _exit)
     {
         auto d = osmdata::dataset();        // nodes 0-3, ways 4-7, relations 8-10
         g_objs = {d[0], d[1], d[4], d[5], d[8], d[9]};
@@ -228,7 +236,19 @@ int main(int argc, char** argv) {
     }
     const int maxb = T ? 2 : 1;
     if (m.replay_mode()) {
-        for (auto& c : cfgs) { vsched::Options o; o.delay_bounded = true; m.run(c.name(), [&] { body(c); }, o); }
+        // the engine reports a worker killed by a signal as crash/signal-N; a replay reproduces that key by
+        // running the recorded schedule in a child and looking at how the child ends
+        fflush(stdout);
+        const pid_t pid = fork();
+        if (pid == 0) {
+            for (auto& c : cfgs) { vsched::Options o; o.delay_bounded = true; m.run(c.name(), [&] { body(c); }, o); }
+            fflush(stdout);
+            _exit(0);
+        }
+        int status = 0;
+        waitpid(pid, &status, 0);
+        if (WIFSIGNALED(status)) { printf("VIOL\tcrash/signal-%d\tthe replayed execution died by signal %d\t-\n", WTERMSIG(status), WTERMSIG(status)); fflush(stdout); }
+        return 0;
     } else {
         for (int b = 0; b <= maxb; ++b) for (auto& c : cfgs) {
             vsched::Options o; o.delay_bounded = true; o.min_bound = b; o.max_bound = b; o.workers = 16;
